@@ -3,6 +3,10 @@
   check <ID> [--tier quick|thorough]      decide one property on /repo's current working tree
   check replay <case.json>                replay a recorded counterexample natively
 """
+import sys as _sys
+if hasattr(_sys, 'set_int_max_str_digits'):
+    _sys.set_int_max_str_digits(0)      # exact fractions with thousands of digits are ordinary here
+
 import json
 import multiprocessing
 import os
